@@ -40,6 +40,14 @@ CHECKS = [
               "values of the scrutinee type (exact for the generated patterns by a small-model bound); for accepted matches the compiled `when` "
               "is run by the symbolic CEK machine on a symbolic scrutinee and z3 decides that the first matching clause runs with the right bindings",
          note=U_NOTE + "; reference matching relation in aikengen/lang.py", tech="SMT decision of exhaustiveness/redundancy over all values + symbolic CEK execution of the compiled match (z3)"),
+    dict(id="C12", engine="uplcsym", cat="translation_validation",
+         text="for a fixed family of 24 types (enums, records, nested and recursive ADTs, Option, lists, tuples, pairs/maps, Bool, Int, "
+              "ByteArray, Data) the real blueprint code publishes the schema and the real compiler produces `expect _: T = d`; the acceptor "
+              "is run by the symbolic CEK machine on a symbolic Data value and z3 decides accepted <=> conforms to a direct z3 reading of the "
+              "schema JSON (CIP-57), and that every value of T conforms; the blueprint code's own reading of a schema (Parameter::validate) "
+              "is decided under C18",
+         note=U_NOTE + "; driver drv-project (real Annotated::<Schema>::from_type and finalisation passes); z3 reading of CIP-57 in props/c12.py",
+         tech="SMT translation validation: compiled `expect` on symbolic Data vs z3 reading of the published schema"),
     dict(id="C15", engine="mirsym", cat="model_checking",
          text="PARTIAL: only the name tables printer and parser keep separately are decided - <DefaultFunction as Display>::fmt and FromStr::from_str "
               "executed from MIR for a symbolic builtin tag (round trip and injectivity for every tag), Type::to_doc leaf keywords against the "
